@@ -21,6 +21,8 @@ pub enum Point {
     BeforeAccept {
         /// listener token
         token: usize,
+        /// whether the accept loop considers itself paused at this instant
+        paused: bool,
     },
 
     /// A connection was taken off the listener with this token.
